@@ -528,4 +528,98 @@ def q_c10_alice_steps(bodies):
                 check_message=(problems[0][0] if problems else "the initiating side handles every reply script"))
 
 
-QUERIES_C10 = [q_c10_bob_steps, q_c10_alice_steps]
+def _defs_of(body, place):
+    pat = "^" + re.escape(place) + " = "
+    return [st for blk in body.blocks.values() for st in blk if re.match(pat, st)]
+
+
+def _trace_place(body, place, call_re, depth=0):
+    """follow `place` backwards through single assignments that are plain copies / moves / borrows until a call matching
+    `call_re` -> (True, the call's argument text) | (False, what it is assigned from) | (None, reason)"""
+    if depth > 8:
+        return None, "copy chain too long"
+    defs = _defs_of(body, place)
+    if len(defs) != 1:
+        return None, "%s is assigned %d times" % (place[:50], len(defs))
+    rhs = defs[0].split(" = ", 1)[1]
+    m = re.match(r"^(%s)\((.*?)\) -> \[" % call_re, rhs)
+    if m:
+        return True, m.group(2)
+    m = re.match(r"^(?:no_retag )?(?:copy |move |&(?:mut )?)(\(?.+?\)?);$", rhs)
+    if m and "(" not in m.group(1).split(":")[0].replace("((", "").replace("(*", ""):
+        return _trace_place(body, m.group(1), call_re, depth + 1)
+    if m:
+        return _trace_place(body, m.group(1), call_re, depth + 1)
+    return False, rhs[:100]
+
+
+def q_c10_accept_report(bodies):
+    """MIR data flow over `net::handle_connection` (the coroutine that wraps `BobState::run` on a QUIC connection): every
+    `AcceptError::close(peer, namespace, error)` it can return — a failure while finishing / draining the streams AFTER the
+    session ran — names the document the session was about as recorded in the state (`BobState::namespace(&state)`, which
+    c10_bob_steps shows to be on record from the moment the request was allowed), not something that is only known when the
+    session succeeded; and the peer is the connection's remote id.  `into_outcome` is taken from the same state."""
+    name = "c10_accept_report"
+    hits = _find(bodies, r"^net::handle_connection::\{closure#0\}$")
+    if len(hits) != 1:
+        return dict(name=name, property="C10", verdict="inconclusive", detail="handle_connection coroutine not found (%d)" % len(hits), functions=[])
+    body = hits[0]
+    problems, nsites = [], 0
+    # closures whose body builds AcceptError::close
+    closers = {}
+    for n, bs in bodies.items():
+        if re.match(r"^net::handle_connection::\{closure#0\}::\{closure#\d+\}$", n):
+            for b in bs:
+                text = " ".join(st for blk in b.blocks.values() for st in blk)
+                mc = re.search(r"= (?:net::)?AcceptError::close(?:::<[^(]*>)?\((.*?)\) -> \[", text)
+                cl = re.match(r"^_1: (\{closure@[^}]*\})", b.args)
+                if mc and cl:
+                    closers[cl.group(1)] = (b, mc.group(1))
+    if not closers:
+        return dict(name=name, property="C10", verdict="inconclusive", detail="no closure building AcceptError::close found", functions=[body.name])
+    state_places = set()
+    for clo, (cb, cargs) in closers.items():
+        # which captured field is handed to `close` as its namespace (2nd) and peer (1st) argument
+        args = [a.strip() for a in cargs.split(",")]
+        fld = {}
+        for role, a in (("peer", args[0]), ("namespace", args[1])):
+            local = re.sub(r"^(copy|move) ", "", a)
+            d = _defs_of(cb, local)
+            mm = re.search(r"\(_1\.(\d+): ", d[0]) if len(d) == 1 else None
+            # one more hop: `_4 = copy (*_5); _5 = copy (_1.1: &T)`
+            if len(d) == 1 and not mm:
+                m2 = re.search(r"= (?:copy|move) \(?\*?(_\d+)\)?;", d[0])
+                if m2:
+                    d2 = _defs_of(cb, m2.group(1))
+                    mm = re.search(r"\(_1\.(\d+): ", d2[0]) if len(d2) == 1 else None
+            if not mm:
+                problems.append(("the close-error closure's %s argument is one of its captures" % role, "inconclusive", "%s: %s" % (clo, a)))
+                continue
+            fld[role] = int(mm.group(1))
+        sites = [st for blk in body.blocks.values() for st in blk if re.match(r"^_\d+ = %s \{" % re.escape(clo), st)]
+        for st in sites:
+            nsites += 1
+            ops = [f.split(":", 1)[1].strip() for f in st.split("{", 2)[2].rsplit("}", 1)[0].split(", ") if ":" in f]
+            for role, call_re in (("namespace", r"BobState::namespace"), ("peer", r"iroh::endpoint::Connection::remote_id")):
+                if role not in fld or fld[role] >= len(ops):
+                    continue
+                op = re.sub(r"^(copy|move) ", "", ops[fld[role]])
+                ok, why = _trace_place(body, op, call_re)
+                if ok is None:
+                    problems.append(("the %s reported with a close error can be traced" % role, "inconclusive", "%s: %s" % (clo, why)))
+                elif not ok:
+                    problems.append(("a failure while closing an accepted session is reported with the document recorded in the session state (state.namespace()) and the connection's peer", "sat", "%s: %s comes from `%s`" % (clo, role, why)))
+                elif role == "namespace":
+                    state_places.add(re.sub(r"^(copy|move) ", "", why.strip()))
+    # the outcome is taken from the same state object the namespace was read from
+    outs = [st for blk in body.blocks.values() for st in blk if re.search(r"= BobState::into_outcome\(", st)]
+    runs = [st for blk in body.blocks.values() for st in blk if re.search(r"BobState::run::<", st)]
+    if len(outs) != 1 or not runs:
+        problems.append(("handle_connection runs the session and takes its outcome from the state exactly once", "sat" if len(outs) != 1 else "inconclusive", "into_outcome calls=%d run calls=%d" % (len(outs), len(runs))))
+    problems.sort(key=lambda p: p[1] == "inconclusive")
+    return dict(name=name, property="C10", verdict=_verdict(problems), detail="close-error closures=%d, construction sites=%d; problems: %s" % (len(closers), nsites, problems[:3] or "none"),
+                functions=[body.name] + sorted(b.name for b, _ in closers.values()), queries=nsites * 2, cases=nsites, witness="c10accept",
+                check_message=(problems[0][0] if problems else "close errors of an accepted session name the session's document and peer"))
+
+
+QUERIES_C10 = [q_c10_bob_steps, q_c10_alice_steps, q_c10_accept_report]
